@@ -13,15 +13,17 @@ EXTENDS Integers, Sequences, FiniteSets, TLC
 \* v1e is equal to v1 but a different object; nanA, nanB are two NaN objects; er is an object whose
 \* == and != raise; dflt is the declared default; bad is rejected by the typed trait;
 \* undef is traits' Undefined (old value reported by Event traits); unset: never assigned nor read
-Tokens == {"v1", "v1e", "v2", "nanA", "nanB", "er", "none", "dflt", "bad"}
+\* arrA, arrB: numpy arrays with two elements: == / != return an array whose truth value raises
+Tokens == {"v1", "v1e", "v2", "nanA", "nanB", "er", "arrA", "arrB", "none", "dflt", "bad"}
+Raiser(a) == a \in {"er", "arrA", "arrB"}
 EqClass(a) == IF a \in {"v1", "v1e"} THEN "v1" ELSE a
 IsNaN(a) == a \in {"nanA", "nanB"}
-PyEq(a, b) == IF a = "er" \/ b = "er" THEN (IF a = b THEN "true" ELSE "raises")    \* `is` shortcut does not apply to ==: see note
+PyEq(a, b) == IF Raiser(a) \/ Raiser(b) THEN (IF a = b THEN "true" ELSE "raises")    \* `is` shortcut does not apply to ==: see note
               ELSE IF IsNaN(a) \/ IsNaN(b) THEN "false"
               ELSE IF EqClass(a) = EqClass(b) THEN "true" ELSE "false"
 \* note: for two *different* objects Python calls __eq__ / __ne__; for the identical object the C
 \* pre-filter has already decided, so PyEq/PyNe of identical tokens is never consulted below.
-PyNe(a, b) == IF a = "er" \/ b = "er" THEN (IF a = b THEN "false" ELSE "raises")
+PyNe(a, b) == IF Raiser(a) \/ Raiser(b) THEN (IF a = b THEN "false" ELSE "raises")
               ELSE IF IsNaN(a) \/ IsNaN(b) THEN "true"
               ELSE IF EqClass(a) = EqClass(b) THEN "false" ELSE "true"
 
